@@ -263,18 +263,18 @@ impl DecoderInstruction {
 }
 
 #[derive(Debug, PartialEq)]
-pub struct InsertCountIncrement(pub u8);
+pub struct InsertCountIncrement(pub usize);
 
 impl InsertCountIncrement {
     pub fn decode<R: Buf>(buf: &mut R) -> Result<Option<Self>, ParseError> {
         let insert_count = match prefix_int::decode(6, buf) {
             Ok((0b00, x)) => {
-                if x > 64 {
+                if x > (usize::MAX as u64) {
                     return Err(ParseError::Integer(
                         crate::qpack::prefix_int::Error::Overflow,
                     ));
                 }
-                x as u8
+                x as usize
             }
             Ok((f, _)) => return Err(ParseError::InvalidPrefix(f)),
             Err(IntError::UnexpectedEnd) => return Ok(None),
